@@ -87,6 +87,17 @@ CHECKS = {
         "As C02.",
         "6 C18",
     ),
+    "C17": (
+        "exploration",
+        "runtime monitoring: independent path oracle against the real default_code_filter over every library/user code location; store rows after real `monkeytype run` sessions",
+        "default_code_filter is evaluated on one distinct code object per .py file under the real stdlib and site-packages roots (complete), "
+        "on every loaded function, on user files reached through symlinks / relative paths and on synthetic names, without and with "
+        "allow-lists of 0..3 names (one interpreter each), and compared with an os.path oracle; generated scripts are run with "
+        "`monkeytype run` under default, allow-list and custom-filter configs and the rows in the store compared with the functions "
+        "admitted and called (none from __main__, none rejected, every admitted one).",
+        "The filter reads only co_filename; sysconfig roots of this installation.",
+        "6 C17",
+    ),
 }
 
 PENDING = {}
